@@ -662,7 +662,14 @@ def mpf_expint(n, x, prec, rnd=round_fast, gamma=False):
             while m and t:
                 s += t
                 m += 1
-                t = (m*r*t) >> wp
+                u = (m*r*t) >> wp
+                # With n > 0 the series does not terminate, and once its
+                # terms start to grow (m >= x) they grow forever: the size
+                # estimate above was too optimistic and t never becomes 0.
+                # Let the caller use the generic code instead.
+                if m > 0 and abs(u) > abs(t):
+                    raise NotImplementedError
+                t = u
             v = mpf_exp(negx, wp)
             if gamma:
                 # ~ exp(-x) * x^(n-1) * (1 + ...)
